@@ -124,15 +124,9 @@ func (s *BaseNodeService) ProcessMessage(message storage.Message) error {
 		return nil
 	}
 
-	operation, err := s.processMessage(message)
-	if err != nil {
+	// (the operation the message creates is stored by processMessage, right before the round)
+	if _, err := s.processMessage(message, true); err != nil {
 		return err
-	}
-
-	if operation != nil {
-		if err := s.opService.PutOperation(operation); err != nil {
-			return fmt.Errorf("failed to PutOperation: %w", err)
-		}
 	}
 	return nil
 }
@@ -654,7 +648,7 @@ func (s *BaseNodeService) reinitDKG(message storage.Message) error {
 			if skip {
 				s.SetSkipCommKeysVerification(true)
 			}
-			operation, err := s.processMessage(msg)
+			operation, err := s.processMessage(msg, false)
 			if skip {
 				s.SetSkipCommKeysVerification(false)
 			}
@@ -765,7 +759,7 @@ func (s *BaseNodeService) processSignatureProposal(message storage.Message) erro
 	return nil
 }
 
-func (s *BaseNodeService) processMessage(message storage.Message) (*types.Operation, error) {
+func (s *BaseNodeService) processMessage(message storage.Message, storeOperation bool) (*types.Operation, error) {
 	// only a proposal can open a new round, any other message must belong to an existing one
 	if fsm.Event(message.Event) != spf.EventInitProposal {
 		roundExist, err := s.fsmService.IsExist(message.DkgRoundID)
@@ -967,21 +961,25 @@ func (s *BaseNodeService) processMessage(message storage.Message) (*types.Operat
 		}
 	}
 
-	// The operation is stored by the caller after the round has been saved. If it is already in
-	// the pool (a copy of an earlier signing proposal - anyone can append one - while this node's
-	// answer to it is outstanding) the message has to be refused here, before anything durable
-	// changes.
-	if operation != nil && fsm.Event(message.Event) == sif.EventSigningStart {
-		if _, err := s.opService.GetOperationByID(operation.ID); err == nil {
-			return nil, fmt.Errorf("operation %s already exists", operation.ID)
-		}
-	}
 
 	// save signing data to the same storage as we save signatures
 	// This allows easy to view signing data by CLI-command
 	if fsm.Event(message.Event) == sif.EventSigningStart {
 		if err := s.processSignatureProposal(message); err != nil {
 			return nil, fmt.Errorf("failed to process signature: %w", err)
+		}
+	}
+
+	// The operation is stored before the round. If the process dies between the two writes the
+	// message is handled again after the restart (the offset is saved last): the round is still as
+	// it was, the same operation is created again and found already stored. The other way round
+	// the round had moved on, the message was refused the second time and the operation was lost
+	// for good.
+	if storeOperation && operation != nil {
+		if err := s.opService.PutOperation(operation); err != nil {
+			if _, getErr := s.opService.GetOperationByID(operation.ID); getErr != nil {
+				return nil, fmt.Errorf("failed to PutOperation: %w", err)
+			}
 		}
 	}
 
